@@ -327,6 +327,18 @@ def emit(repo: Path) -> dict:
     for e in excs:
         L.append(f"  | {e}")
     L.append("  deriving DecidableEq, Repr, Inhabited\n")
+    L.append("def Exc.idx : Exc → Nat")
+    for i, e in enumerate(excs):
+        L.append(f"  | .{e} => {i}")
+    L.append("")
+    L.append("def Exc.ofIdx : Nat → Exc")
+    for i, e in enumerate(excs[:-1]):
+        L.append(f"  | {i} => .{e}")
+    L.append(f"  | _ => .{excs[-1]}")
+    L.append("")
+    L.append("theorem Exc.ofIdx_idx (e : Exc) : Exc.ofIdx e.idx = e := by cases e <;> rfl\n")
+    L.append("/-- comparison through the constructor index: cheap for the kernel -/")
+    L.append("instance : BEq Exc := ⟨fun a b => Nat.beq a.idx b.idx⟩\n")
     L.append("def Exc.all : List Exc := [" + ", ".join("." + e for e in excs) + "]\n")
     L.append("def Exc.name : Exc → String")
     for e in excs:
